@@ -136,7 +136,7 @@ def strategy(tier: str):
 
 
 SPECIALS = ("missing-empty-registry", "missing-with-registry", "empty-file", "directory", "missing-after-start", "missing-after-save", "missing-after-load", "missing-after-failed-load",
-            "missing-with-odd-text", "missing-dangling-symlink", "missing-concurrent-loads", "missing-other-path")
+            "missing-with-odd-text", "missing-dangling-symlink", "missing-concurrent-loads", "missing-other-path", "other-path-native-unwritable-own", "other-path-legacy-unwritable-own")
 
 
 def _enumerate_base(tier: str):
@@ -366,6 +366,22 @@ def run_case(case: dict) -> Outcome:
                     return fail(f"load-leak:{env.exc_sig(err)}", f"{what}: load(path) of a missing file raised {err!r}")
                 if env.snapshot(gateway.nodes) != before_other:
                     return fail(f"special:{what}:registry-changed", f"{what}: registry changed by load")
+                return None
+            elif what in ("other-path-native-unwritable-own", "other-path-legacy-unwritable-own"):
+                # load(path) reads a file kept elsewhere (native or pymysensors layout) while the configured file sits where nothing can be written
+                owner = Gateway(env.RecordingTransport(), Config(persistence_file=env.UNWRITABLE_FILE))
+                reg = {"7": {"node_id": 7, "node_type": 17, "protocol_version": "2.0", "sketch_name": "s", "sketch_version": "1", "battery_level": 5, "heartbeat": 0, "sleeping": False,
+                             "children": {"1": {"child_id": 1, "child_type": 6, "description": "", "values": {"0": "1"}}}}}
+                with open(path, "w", encoding="utf-8") as fil:
+                    json.dump(reg if "native" in what else c13._legacy(reg, False), fil)
+                try:
+                    await owner.persistence.load(path)
+                except PersistenceReadError as err:
+                    return fail(f"special:{what}:read-error", f"{what}: a well-formed file was rejected: {err!r}")
+                except Exception as err:  # noqa: BLE001
+                    return fail(f"load-leak:{env.exc_sig(err)}", f"{what}: load(path) raised {err!r}")
+                if sorted(env.snapshot(owner.nodes)) != ["7"]:
+                    return fail(f"special:{what}:not-loaded", f"{what}: the registry holds {sorted(env.snapshot(owner.nodes))} after loading a file with node 7")
                 return None
             elif what == "missing-after-start":
                 env.install_registry(gateway.nodes, {"4": {"sketch_name": "started first"}})
